@@ -166,3 +166,110 @@ Proof.
   { unfold owned_by. cbn [filter]. destruct (match kw_get n ow with Some o => path_eqb o n | None => false end); reflexivity. }
   rewrite Hl, (Hval n q Hin). reflexivity.
 Qed.
+
+(** * Look-ups that find nothing *)
+Lemma eff_none X kw name t : kw_last (name :: t) kw = None -> kw_last t kw = None -> eff X kw name t = None.
+Proof. intros H1 H2. unfold eff. rewrite H1. destruct (mem (head_of t) X); [reflexivity | exact H2]. Qed.
+
+Section KwNone.
+  Variable kw : kwargs.
+  Hypothesis Hnd : NoDup (map fst kw).
+  Let klg K : kw_last K kw = kw_get K kw := kw_last_get kw Hnd K.
+
+  Section WithX4.
+    Variables (split : list (string * kwargs)) (glob : kwargs).
+    Hypothesis Hu : unflatten_and_split kw X4 = (split, glob).
+
+    Lemma n_lk_side side n t : In side X4 ->
+      (forall c, In c [side :: n :: t; n :: t; side :: t; t] -> kw_get c kw = None) ->
+      u_lk (obj_kwargs side split glob) (n :: t) = None.
+    Proof.
+      intros Hs Hc. unfold u_lk. rewrite !kw_last_NoDup by (apply (obj_kwargs_NoDup kw X4); exact Hu).
+      rewrite !(obj_kwargs_lookup kw X4 side _ split glob not_empty_X4 Hu Hs).
+      rewrite !eff_none; try reflexivity; rewrite klg; apply Hc; cbn; tauto.
+    Qed.
+    Lemma n_lk_glob n t : (forall c, In c [n :: t; t] -> kw_get c kw = None) -> u_lk glob (n :: t) = None.
+    Proof.
+      intros Hc. unfold u_lk.
+      destruct (glob_lookup kw X4 (n :: t) split glob not_empty_X4 Hu) as [Hg Hgnd].
+      destruct (glob_lookup kw X4 t split glob not_empty_X4 Hu) as [Hg2 _].
+      rewrite !kw_last_NoDup by exact Hgnd. rewrite Hg, Hg2, !klg, !Hc by (cbn; tauto).
+      destruct (mem (head_of (n :: t)) X4), (mem (head_of t) X4); reflexivity.
+    Qed.
+    Lemma n_lk_mixing : kw_get ["mixing"] kw = None -> kw_get ["mixing"] glob = None.
+    Proof.
+      intros Hc. destruct (glob_lookup kw X4 ["mixing"] split glob not_empty_X4 Hu) as [Hg _]. rewrite Hg. cbn.
+      rewrite klg. exact Hc.
+    Qed.
+    Lemma n_lk_nested side nsplit ng n t : (side = "noext" \/ side = "ext") ->
+      unflatten_and_split (sub_kwargs side split) ["contra"] = (nsplit, ng) ->
+      (forall c, In c [side :: "contra" :: n :: t; n :: t; side :: "contra" :: t; t] -> kw_get c kw = None) ->
+      u_lk (obj_kwargs "contra" nsplit glob) (n :: t) = None.
+    Proof.
+      intros Hside Hun Hc. assert (Hs : In side X4) by (destruct Hside as [-> | ->]; cbn; tauto).
+      destruct (glob_lookup kw X4 (n :: t) split glob not_empty_X4 Hu) as [Hg Hgnd].
+      destruct (glob_lookup kw X4 t split glob not_empty_X4 Hu) as [Hg2 _].
+      assert (Hcn : ~ In "" ["contra"]) by (cbn; intuition discriminate).
+      assert (Hlook : forall K, kw_get K kw = None -> kw_get (side :: "contra" :: K) kw = None ->
+                kw_get K (kw_update (sub_kwargs "contra" nsplit) glob) = None).
+      { intros K H1 H2.
+        destruct (sub_kwargs_lookup (sub_kwargs side split) ["contra"] "contra" K nsplit ng Hcn Hun (or_introl eq_refl)) as [Hsub Hsnd].
+        destruct (sub_kwargs_lookup kw X4 side ("contra" :: K) split glob not_empty_X4 Hu Hs) as [Hsub2 Hsnd2].
+        rewrite kw_get_update, kw_get_rev_NoDup by exact Hsnd. rewrite Hsub, kw_last_NoDup by exact Hsnd2. rewrite Hsub2, klg, H2.
+        destruct (glob_lookup kw X4 K split glob not_empty_X4 Hu) as [HgK _]. rewrite HgK, klg, H1.
+        destruct (mem (head_of K) X4); reflexivity. }
+      unfold u_lk, obj_kwargs. rewrite !kw_last_NoDup by (apply kw_update_NoDup, Hgnd).
+      rewrite !Hlook; try reflexivity; apply Hc; cbn; tauto.
+    Qed.
+  End WithX4.
+
+  Lemma n_lk_dist XDl dsplit dglob ikw ckw t k :
+    In "ext" XDl -> (forall s, In s XDl -> In s ["ext"; "noext"; "central"; "unknown"]) ->
+    unflatten_and_split kw XDl = (dsplit, dglob) -> side_kwargs (obj_kwargs "ext" dsplit dglob) = (ikw, ckw) ->
+    (forall c, In c [["ext"; "ipsi"; t; k]; ["ipsi"; t; k]; ["ext"; t; k]; [t; k];
+                     ["ext"; "ipsi"; k]; ["ipsi"; k]; ["ext"; k]; [k]] -> kw_get c kw = None) ->
+    u_lk ikw [t; k] = None.
+  Proof.
+    intros Hext Hsub Hud Hsk Hc.
+    assert (HeD : ~ In "" XDl) by (intros H; apply Hsub in H; cbn in H; intuition discriminate).
+    set (ekw := obj_kwargs "ext" dsplit dglob) in *.
+    assert (Hend : NoDup (map fst ekw)) by (apply (obj_kwargs_NoDup kw XDl); exact Hud).
+    assert (Hekw : forall K, kw_last K ekw = eff XDl kw "ext" K)
+      by (intros K; rewrite kw_last_NoDup by exact Hend; apply (obj_kwargs_lookup kw XDl "ext" K dsplit dglob HeD Hud Hext)).
+    destruct (side_kwargs_lk ekw ikw ckw Hsk) as [Hlk _]. rewrite Hlk. unfold side_lk.
+    rewrite !eff_none; try reflexivity; rewrite Hekw; apply eff_none; rewrite klg; apply Hc; cbn; tauto.
+  Qed.
+End KwNone.
+
+(** * A parameter without keyword keeps its value (keyword-only call) *)
+Lemma block_keep lk ps qs k old : all_unit (plan lk ps []) = Some qs -> In (k, old) ps -> lk k = None ->
+  In (k, old) (combine (map fst ps) qs).
+Proof.
+  intros Hq Hin Hlk. apply all_unit_Some_vals in Hq. destruct Hq as [Hp _].
+  destruct (plan_nil_In lk ps qs k old Hp Hin) as (q & Hq & Hv). rewrite Hlk in Hv. cbn in Hv. injection Hv as ->. exact Hq.
+Qed.
+Lemma dist_block_keep maxt ds lk (ps : list (path * Qc)) dsi k old :
+  dists_put maxt ds (plan lk ps []) = Some dsi -> length ps = length (dists_items ds) -> map fst ps = map fst (dists_items ds) ->
+  In (k, old) ps -> lk k = None -> In (k, old) (dists_items dsi).
+Proof.
+  intros Hdp Hlen Hkeys Hin Hlk.
+  destruct (dists_put_spec _ _ _ _ Hdp) as (qD & HuD & HiD & _); [rewrite plan_length; exact Hlen|].
+  apply unwrap_Some in HuD. rewrite HiD, <- Hkeys.
+  destruct (plan_nil_In lk ps qD k old HuD Hin) as (q & Hq & Hv). rewrite Hlk in Hv. cbn in Hv. injection Hv as ->. exact Hq.
+Qed.
+Lemma dist_keys_after maxt ds new dsi : dists_put maxt ds new = Some dsi -> length new = length (dists_items ds) ->
+  map fst (dists_items dsi) = map fst (dists_items ds).
+Proof.
+  intros Hdp Hl. destruct (dists_put_spec _ _ _ _ Hdp Hl) as (qD & HuD & HiD & _). rewrite HiD. apply map_fst_combine.
+  rewrite map_length, (unwrap_length _ _ HuD). symmetry. exact Hl.
+Qed.
+Lemma in_pre_items_iff p (X : list (path * Qc)) K v : In (K, v) (pre p X) <-> exists k, K = p ++ k /\ In (k, v) X.
+Proof.
+  unfold pre, prefix. rewrite in_map_iff. split.
+  - intros ([k x] & E & Hin). cbn [fst snd] in E. injection E as <- <-. exists k. split; [reflexivity | exact Hin].
+  - intros (k & -> & Hin). exists (k, v). split; [reflexivity | exact Hin].
+Qed.
+Lemma in_items_key {A B} (l : list (A * B)) k v : In (k, v) l -> In k (map fst l).
+Proof. intros H. apply in_map_iff. exists (k, v). split; [reflexivity | exact H]. Qed.
+Lemma keys_combine_len (ps : list (path * Qc)) (qs : list Qc) : length qs = length ps -> map fst (combine (map fst ps) qs) = map fst ps.
+Proof. intros H. apply map_fst_combine. rewrite map_length. symmetry. exact H. Qed.
